@@ -120,6 +120,12 @@ func coqCase(c caseJ) string {
 			blocked = fmt.Sprintf("(Some (%d%%nat,%d%%nat))", c.BlockedAt[0], c.BlockedAt[1])
 		}
 		mode = fmt.Sprintf("(Sched [%s] %s %s)", strings.Join(rs, ";"), coqNats(c.Word), blocked)
+	case c.Mode == "fine":
+		blocked := "None"
+		if len(c.BlockedAt) == 2 {
+			blocked = fmt.Sprintf("(Some (%d%%nat,%d%%nat))", c.BlockedAt[0], c.BlockedAt[1])
+		}
+		mode = fmt.Sprintf("(Fine %s %s)", coqNats(c.Word), blocked)
 	case c.Mode == "forced":
 		mode = fmt.Sprintf("(Forced %q %s)", c.Yield, lib.CoqBool(c.Blocked))
 	case c.Mode == "forced2":
@@ -131,7 +137,7 @@ func coqCase(c caseJ) string {
 	var rel []string
 	for i, v := range c.Views {
 		vs[i] = fmt.Sprintf("(%q,%s)", v.Name, coqIDs(v.IDs))
-		if c.Mode == "sched" && len(c.Serial) == 0 {
+		if (c.Mode == "sched" || c.Mode == "fine") && len(c.Serial) == 0 {
 			rel = append(rel, fmt.Sprintf("(%q,%s,%s)", v.Name, lib.CoqBool(v.Primary), coqIDs(v.Relevant)))
 		}
 	}
@@ -214,13 +220,28 @@ func runEpisode(w *world, s *siteDef, c caseJ) caseJ {
 
 // runSchedEpisode: fresh objects, the requests of ops, one word.
 func runSchedEpisode(w *world, ops []opSpec, word []int) caseJ {
+	c, _ := runSchedEpisodeX(w, ops, word, false)
+	return c
+}
+
+// fine: the requests also stop before every read-write transaction of the storage engine
+const txnYield = "storage.badger.txn.begin"
+
+func runSchedEpisodeX(w *world, ops []opSpec, word []int, fine bool) (caseJ, []int) {
 	ep := buildEpisode(w, ops)
 	c := caseJ{Site: ep.reqs[0].Site, Mode: "sched", N: len(ops), Ops: ops, Word: word, Reqs: ep.reqs}
+	if fine {
+		c.Mode = "fine"
+	}
 	reqs := make([]func() bool, len(ep.reqs))
 	yields := make([][]string, len(ep.reqs))
 	for i, r := range ep.reqs {
 		reqs[i] = r.run
 		yields[i] = r.Yields
+		if fine {
+			yields[i] = append(append([]string{}, r.Yields...), txnYield)
+			c.Reqs[i].Yields = yields[i]
+		}
 		c.Requests = append(c.Requests, fmt.Sprintf("%d: %s", i+1, r.Desc))
 	}
 	res := runSched(reqs, yields, word)
@@ -234,12 +255,15 @@ func runSchedEpisode(w *world, ops []opSpec, word []int) caseJ {
 		c.Schedule += "; the requests never finished: deadlock"
 		deadlocks++
 		w.rebuild(kindFamily[ops[0].Kind])
-		return c
+		return c, res.segs
 	}
 	c.Acked = ackedOf(res.ok)
 	c.Init = ep.init
 	if ep.serial != nil {
 		c.Serial = ep.serial(c.Acked)
+	}
+	if ep.observe != nil {
+		c.Views = ep.observe(c.Acked)
 	}
 	for _, v := range ep.views {
 		ids := v.read()
@@ -252,7 +276,52 @@ func runSchedEpisode(w *world, ops []opSpec, word []int) caseJ {
 	if ep.finish != nil {
 		ep.finish()
 	}
-	return c
+	return c, res.segs
+}
+
+// fineHolds: request h is stopped at its k-th stop (yield point or start of a storage transaction),
+// for k = 1, 2, ... until it finishes earlier; the other requests then run to their end (or until a
+// mutex stops them), and h goes on.
+func fineHolds(w *world, run *lib.Run, ops []opSpec, name string, maxK int) {
+	n := len(ops)
+	for h := 0; h < n; h++ {
+		for k := 1; k <= maxK; k++ {
+			var word []int
+			for j := 0; j < k; j++ {
+				word = append(word, h)
+			}
+			for o := 0; o < n; o++ {
+				if o != h {
+					for j := 0; j < 40; j++ {
+						word = append(word, o)
+					}
+				}
+			}
+			cj, segs := runSchedEpisodeX(w, ops, word, true)
+			// letters after the end of a request are skipped: record the word that was run
+			cj.Word = word[:k]
+			cj.Schedule = fmt.Sprintf("request %d stopped at its stop number %d (yield points and starts of storage transactions), the other request(s) run to their end, then request %d goes on", h+1, k, h+1)
+			if len(cj.BlockedAt) == 2 {
+				cj.Schedule += fmt.Sprintf("; request %d waited on a mutex at letter %d", cj.BlockedAt[1]+1, cj.BlockedAt[0])
+			}
+			if cj.Hung {
+				cj.Schedule += "; the requests never finished: deadlock"
+			}
+			run.Add("fine:"+name, coqCase(cj), cj, key(cj)+fmt.Sprint(h, k))
+			run.Count("mode:fine")
+			run.Count("fine-holds-run:" + name)
+			if len(cj.BlockedAt) == 2 {
+				run.Count("fine-blocked:" + name)
+			}
+			if cj.Hung {
+				run.Count("deadlock:" + name)
+				return
+			}
+			if len(segs) > h && segs[h] <= k {
+				break // the request finished within k segments: no later stop exists
+			}
+		}
+	}
 }
 
 func hasPrefix(w, p []int) bool {
@@ -333,6 +402,23 @@ func main() {
 		if err := lib.LoadReplay(o.Replay, &c); err != nil {
 			fatal("%v", err)
 		}
+		if c.Mode == "fine" {
+			// the stored word is the hold prefix: request h, k times
+			word := append([]int{}, c.Word...)
+			for o := 0; o < len(c.Ops); o++ {
+				if len(c.Word) > 0 && o != c.Word[0] {
+					for j := 0; j < 40; j++ {
+						word = append(word, o)
+					}
+				}
+			}
+			cj, _ := runSchedEpisodeX(w, c.Ops, word, true)
+			cj.Word = c.Word
+			run.Add("fine:"+pairName(c.Ops), coqCase(cj), cj, key(cj))
+			run.Finish("c11case", "replay", tail)
+			shutdown()
+			return
+		}
 		if c.Mode == "sched" {
 			cj := runSchedEpisode(w, c.Ops, c.Word)
 			run.Add("sched:"+pairName(c.Ops), coqCase(cj), cj, key(cj))
@@ -369,6 +455,14 @@ func main() {
 			counts[i] = len(siteYields[kindSite[op.Kind]]) + 1
 		}
 		name := pairName(pd.ops)
+		if pd.fine {
+			fineHolds(w, run, pd.ops, name, 24)
+			continue
+		}
+		if ti == 1 && len(pd.ops) == 2 {
+			// thorough: every pair also with the stops before storage transactions
+			fineHolds(w, run, pd.ops, name, 24)
+		}
 		var blockedPrefixes [][]int
 		for _, word := range words(counts) {
 			pruned := false
